@@ -91,3 +91,16 @@ Fixpoint delivered (s : sh) (l : list (N * bool)) : list N :=
 
 (* executable invariant checker used on implementation snapshots *)
 Definition sh_wf (s : sh) : bool := (hi s <? 4294967296) && (bm s <? 18446744073709551616).
+
+(* histories in which failed key-setup attempts (InitKeyServer / InitKeyClientComplete returning
+   an error) are interleaved with deliveries: a failed attempt leaves keys and windows untouched *)
+Inductive dop := DFrame (f : N * bool) | DFailedSetup.
+Fixpoint delivered_ops (s : sh) (l : list dop) : list N :=
+  match l with
+  | [] => []
+  | DFailedSetup :: t => delivered_ops s t
+  | DFrame f :: t => let '(s', b) := unseal_step s f in
+                     if b then fst f :: delivered_ops s' t else delivered_ops s' t
+  end.
+Definition frames_of (l : list dop) : list (N * bool) :=
+  flat_map (fun o => match o with DFrame f => [f] | DFailedSetup => [] end) l.
